@@ -108,6 +108,7 @@ class Registry:
         self.assumed = {}         # external fqn -> Contract (assumed, never verified)
         self.spec_funcs = {}      # name -> (params, expr)
         self.spec_rec = {}        # name -> (params [(name, type)], return type, body expr): recursive definitions
+        self.spec_axioms = {}     # name of an uninterpreted spec function -> defining axioms (clauses)
         self.scans = []
         self.closures = {}        # property id -> [fqn]
         self.notes = []
@@ -171,6 +172,14 @@ def spec_function(name, params, expr):
 def spec_rec(name, params, returns, body):
     """recursive spec function (z3 RecFunction); list parameters are passed as their element array"""
     REG.spec_rec[name] = (list(params), returns, body)
+
+
+def spec_uninterpreted(name, params, returns, axioms=()):
+    """uninterpreted spec function with defining axioms (closed clauses, usually `forall(...)`).  The axioms are part of
+    the SPECIFICATION (they define the function, e.g. by structural recursion that the solver cannot unfold by itself);
+    they are added as hypotheses in every function whose clauses use the function."""
+    REG.spec_rec[name] = (list(params), returns, None)
+    REG.spec_axioms[name] = list(axioms)
 
 
 def lemma(name, hyps=(), concl=None, vars=None, props=(), note=""):
